@@ -25,6 +25,8 @@ mod fam_fold;
 mod fam_marginalize;
 mod fam_npy;
 mod fam_project;
+mod fam_stream;
+mod sched;
 mod fam_text;
 mod fam_toolchain;
 mod symbolic;
@@ -61,6 +63,7 @@ fn family(name: &str) -> Option<Runner> {
         "marginalize" => fam_marginalize::run,
         "npy" => fam_npy::run,
         "project" => fam_project::run,
+        "stream" => fam_stream::run,
         "text" => fam_text::run,
         "toolchain" => fam_toolchain::run,
         _ => return None,
@@ -148,6 +151,17 @@ fn gen_cmd(args: &[String]) -> i32 {
                     2
                 }
             }
+        }
+        Some("streamfiles") => {
+            // lengths (and as-built inflate thresholds) of the real files behind MCTransport
+            let names = ["npy_ok", "npy_midvalue", "npy_short", "npy_header_cut", "vcf", "vcf_gz", "bcf_raw", "bcf_gz", "empty", "w_text", "w_npy"];
+            let v: Vec<Value> = names.iter().map(|n| {
+                let b = fam_stream::stream_file(n);
+                let gz = b.starts_with(&[0x1f, 0x8b]);
+                json!({"name": n, "len": b.len(), "gz": gz, "need": if gz { fam_stream::inflate_need(&b) } else { 3 }})
+            }).collect();
+            println!("{}", serde_json::to_string(&v).unwrap());
+            0
         }
         Some("bgzf") if args.len() == 4 => {
             let data = fs::read(&args[1]).expect("read");
